@@ -333,3 +333,9 @@ pub fn set_of_full_tuples(tuples: &[Vec<u64>], ctx: &SymbolicContext, bn: &Boole
     }
     GraphColoredVertices::new(acc, ctx)
 }
+
+/// Semantic equality of two BDDs over the same variable set (`==` on `Bdd` is STRUCTURAL: two BDDs that
+/// denote the same set can differ in the order of their nodes, e.g. after `restrict` or a transfer).
+pub fn same_bdd(a: &Bdd, b: &Bdd) -> bool {
+    a.num_vars() == b.num_vars() && a.xor(b).is_false()
+}
